@@ -7,6 +7,7 @@ import json
 import multiprocessing
 import os
 import random
+import re
 import subprocess
 import sys
 import time
@@ -230,12 +231,34 @@ def regenerate(profile, prop, tier, base_seed, run):
     return make_case(profile, random.Random(world_seed(base_seed, prop, tier, run)), run, tier)
 
 
+TZS = ['AEST-10', 'IST-5:30', 'EST5EDT', 'UTC0']
+
+
+def current_env():
+    return {'TZ': os.environ.get('TZ', ''), 'optimize': int(sys.flags.optimize)}
+
+
+def secondary_pass(prop, tier, base_seed, n, budget, workers):
+    """The same first worlds once more in another process environment: `python -O` (assert statements and their side
+    effects compiled away) and another local time zone.  Returns (exit code, worlds run, output)."""
+    n2 = max(1, n // 6)
+    b2 = max(6.0, min(budget * 0.3, 12.0 if tier == 'quick' else 150.0))
+    env = dict(os.environ, VERIF_TZ=TZS[(base_seed + 1) % len(TZS)], VERIF_OPTIMIZE='1', VERIF_SECONDARY='1')
+    p = subprocess.run([sys.executable, os.path.join(VERIF_DIR, 'check'), prop, '--tier', tier, '--seed', str(base_seed),
+                        '--n', str(n2), '--budget', str(b2), '--workers', str(workers), '--no-evidence'],
+                       cwd=VERIF_DIR, capture_output=True, text=True, env=env)
+    m = re.search(r'%s %s: (\d+) worlds' % (prop, tier), p.stdout)
+    return p.returncode, int(m.group(1)) if m else 0, p.stdout + p.stderr, env['VERIF_TZ']
+
+
 def write_replay(prop, tier, base_seed, run, seed, case, violations, extra=None):
     d = os.path.join(VERIF_DIR, 'replays')
     os.makedirs(d, exist_ok=True)
     path = os.path.join(d, '%s-%d-%d.json' % (prop, base_seed, run))
     doc = {'property': prop, 'tier': tier, 'base_seed': base_seed, 'run': run, 'world_seed': seed,
-           'oracle_tag': violations[0]['tag'], 'violations': violations, 'case': to_jsonable(case)}
+           'oracle_tag': violations[0]['tag'], 'violations': violations, 'case': to_jsonable(case),
+           # the process environment the run depended on; ./check --replay re-creates it before importing anything
+           'env': current_env()}
     if extra:
         doc.update(extra)
     with open(path, 'w') as f:
@@ -508,6 +531,21 @@ def main(argv=None):
             print('violation: %s %s :: %s' % (v['tag'], v['sig'], v['detail'][:400]))
         print('minimised %d -> %d bytes of case JSON in %d executions' % (
             minim['original_size'], minim['minimised_size'], execs))
+    secondary = None
+    if viol is None and not os.environ.get('VERIF_SECONDARY') and not a.digests and not os.environ.get('VERIF_NO_SECONDARY'):
+        rc2, n2, out2, tz2 = secondary_pass(prop, tier, base_seed, n, budget, a.workers)
+        secondary = {'TZ': tz2, 'optimize': 1, 'worlds': n2, 'exit': rc2}
+        if rc2 == 1:
+            for line in out2.splitlines():
+                if line.startswith(('violation:', 'minimised', 'note:')):
+                    print(line)
+            m = re.search(r'^VIOLATION property=%s replay=(\S+)' % prop, out2, re.M)
+            print('the violation was found in the secondary pass (python -O, TZ=%s)' % tz2)
+            print('VIOLATION property=%s replay=%s' % (prop, m.group(1) if m else '?'))
+            return 1
+        if rc2 != 0:
+            print('HARNESS-ERROR property=%s secondary pass (python -O, TZ=%s) exited %d\n%s' % (prop, tz2, rc2, out2[-3000:]))
+            return 2
     zero = sorted(k for k in getattr(profile, 'EXPECTED_PROBES', []) if not tot['probes'].get(k))
     for k in zero:
         print('warning: reach probe %r was never hit' % k)
@@ -532,6 +570,9 @@ def main(argv=None):
                 'skipped_ops': tot['skipped_ops'], 'known_findings_seen': tot['known'],
                 'stopped_on_budget': stopped_early, 'workers': a.workers,
                 'exhaustive': False,
+                'environment': dict(current_env(), note='local time zone chosen by the seed; a secondary pass re-runs the first '
+                                    'worlds under python -O in another zone'),
+                'secondary_pass': secondary,
                 'process_history': 'worlds run in batches of %d, each batch in a fresh process: a world meets the library state '
                                    'left by the earlier worlds of its batch (violations that need such a history are replayed '
                                    'and minimised with it)' % batch,
